@@ -128,6 +128,15 @@ def check(ctx):
             ctx.require(R2, bool(tests) and bool(hooks_hit), at, "a pending authorization reaches the challenge hooks", [RC, "pending-test"])
         elif v == "Valid":
             ctx.require(R2, bool(tests) and not hooks_hit and not ready_hit, at, "hooks / ready POST are reachable only when the authorization is not already valid", [RC, "hooks-for-valid"])
+            # ... and a valid authorization is SKIPPED, not the end of the loop: from the `valid` edge the loop takes its next
+            # authorization (a `break` there leaves every authorization listed after a valid one unsolved)
+            scc = b.scc_of(tests[0]) if tests else None
+            if scc:
+                sccset = set(scc)
+                leaving = [(u, w) for u in scc for w in b.succ[u] if w not in sccset]
+                nexts_ = [c_.bb for c_ in b.calls_to("core::iter::traits::iterator::Iterator::next") if c_.bb in sccset]
+                inloop = b.reachable(starts, removed_edges=list(map(tuple, rem)) + leaving) if starts else set()
+                ctx.require(R2, bool(nexts_) and any(n_ in inloop for n_ in nexts_), at, "after a valid authorization the loop goes on with the next authorization (it is not left)", [RC, "valid-ends-loop"])
         else:
             ctx.require(R2, bool(tests) and not hooks_hit, at, "hooks run only for a pending authorization (status %s)" % v, [RC, "hooks-non-pending"])
             r2 = b.reachable_flags(starts, removed_nodes=errb, removed_edges=rem) if starts else set()     # variant-tag sensitive
@@ -154,6 +163,10 @@ def check(ctx):
         ctx.require(R2, bool(t) and good, c.where(), "hooks run only for the offered challenge that equals the configured one", [RC, "selection-gate"])
 
     R3 = ctx.rule("R3", "challenge -> (hook type, clean type) table; hook data fields; http-01 file name = token")
+    # the hooks the certificate carries: every configured hook with a challenge / post-operation type (also when the same hook has a
+    # file type as well) — the family filter of MainEventLoop::new, shared with C10.R3
+    from .c10 import HT as _HT, MEL as _MEL, hook_consumers_rule
+    hook_consumers_rule(ctx, R3, prog.async_body(_MEL), set(prog.adt_variants(_HT)))
     hb = prog.async_body(CCH)
     # evaluation-first: call_challenge_hooks is interpreted for every configured challenge (every fallible call succeeds): the hook
     # type handed to hooks::call and the clean type returned next to the hook data are read off the trace
